@@ -408,6 +408,10 @@ func runMgr(t *testing.T, c mgrCase) (nontrivial bool, classes []string, err err
 			if e := m.Run(parent); !errors.Is(e, concurrency.ErrManagerAlreadyStarted) {
 				errs.Failf("Run after Close returned %v, want ErrManagerAlreadyStarted", e)
 			}
+			// the life-cycle is over (Run is refused as "already started"): a runner accepted now could never run
+			if e := m.Add(func(context.Context) error { rec.log("late-runner.start"); return nil }); !errors.Is(e, concurrency.ErrManagerAlreadyStarted) {
+				errs.Failf("Add after Close on a manager that never ran returned %v, want ErrManagerAlreadyStarted (a manager that refuses Run rejects additions)", e)
+			}
 			if e := m.Close(); e != nil {
 				errs.Failf("second Close before Run returned %v", e)
 			}
